@@ -87,6 +87,15 @@ pub mod clock {
         }
     }
 
+    /// `SystemTime::now()` as the code under test sees it (H1): the hook replaces only the clock read,
+    /// so everything the code does with the reading runs in simulation too.
+    pub fn system_now() -> SystemTime {
+        match unix_ms() {
+            Some(ms) => UNIX_EPOCH + Duration::from_millis(ms),
+            None => SystemTime::now(),
+        }
+    }
+
     pub fn unix_ms_peek() -> u64 {
         if is_armed() {
             UNIX_MS.with(|u| u.get())
